@@ -6,6 +6,7 @@ which, when opened in dclab, can access features stored in the input file
 from __future__ import annotations
 
 import abc
+import collections
 import numbers
 import threading
 from typing import Dict, List, Literal
@@ -394,13 +395,30 @@ class BasinProxy:
 
     def __getitem__(self, feat):
         if feat not in self._features:
-            feat_obj = BasinProxyFeature(feat_obj=self.ds[feat],
-                                         basinmap=self.basinmap)
+            if feat == "trace":
+                # The trace feature is dict-like (one array per trace name),
+                # each of the trace arrays has to be mapped individually.
+                trace = self.ds[feat]
+                feat_obj = BasinProxyTrace(
+                    {key: BasinProxyFeature(feat_obj=trace[key],
+                                            basinmap=self.basinmap)
+                     for key in trace.keys()})
+            else:
+                feat_obj = BasinProxyFeature(feat_obj=self.ds[feat],
+                                             basinmap=self.basinmap)
             self._features[feat] = feat_obj
         return self._features[feat]
 
     def __len__(self):
         return len(self.basinmap)
+
+
+class BasinProxyTrace(collections.UserDict):
+    """Dictionary of mapped traces (:class:`BasinProxyFeature`)"""
+    @property
+    def shape(self):
+        key0 = sorted(self.keys())[0]
+        return tuple([len(self)] + list(self[key0].shape))
 
 
 class BasinProxyFeature(np.lib.mixins.NDArrayOperatorsMixin):
@@ -410,6 +428,10 @@ class BasinProxyFeature(np.lib.mixins.NDArrayOperatorsMixin):
         self.basinmap = basinmap
         self._cache = None
         self.is_scalar = bool(len(self.feat_obj.shape) == 1)
+        #: events of ragged features (e.g. "contour") have different shapes
+        self.is_ragged = any(
+            isinstance(ss, float) and np.isnan(ss)
+            for ss in self.feat_obj.shape[1:])
 
     def __array__(self, dtype=None, copy=copy_if_needed, *args, **kwargs):
         if self._cache is None and self.is_scalar:
@@ -425,12 +447,14 @@ class BasinProxyFeature(np.lib.mixins.NDArrayOperatorsMixin):
         return np.array(self._cache, copy=copy)
 
     def __getattr__(self, item):
-        if item in [
-            "dtype",
-            "shape",
-            "size",
-        ]:
-            return getattr(self.feat_obj, item)
+        if item == "dtype":
+            return self.feat_obj.dtype
+        elif item == "shape":
+            # The number of events is defined by the mapping, not by
+            # the number of events in the basin.
+            return (len(self.basinmap),) + tuple(self.feat_obj.shape[1:])
+        elif item == "size":
+            return int(np.prod(self.shape))
         else:
             raise AttributeError(
                 f"BasinProxyFeature does not implement {item}")
@@ -445,6 +469,9 @@ class BasinProxyFeature(np.lib.mixins.NDArrayOperatorsMixin):
                 indices = self.basinmap
             else:
                 indices = self.basinmap[index]
+            if self.is_ragged:
+                # return a list of events (like the basin's feature does)
+                return [self.feat_obj[idx] for idx in indices]
             out_arr = np.empty((len(indices),) + self.feat_obj.shape[1:],
                                dtype=self.feat_obj.dtype)
             for ii, idx in enumerate(indices):
